@@ -1159,4 +1159,10 @@ def registry():
             R.setdefault(base + name, fn_)
         if ity.startswith('u'):
             R.setdefault(base + 'abs_diff', m_abs_diff)
+    # Default::default of the primitive types (reached through #[derive(Default)] on private state structs)
+    for ity in ('u8', 'u16', 'u32', 'u64', 'usize', 'i8', 'i16', 'i32', 'i64', 'isize'):
+        R.setdefault('<%s as core::default::Default>::default' % ity, (lambda ty_: (lambda it, st, fr, t, args, ga: I.Num(ZERO, ty_)))(ity))
+    for fty in ('f32', 'f64'):
+        R.setdefault('<%s as core::default::Default>::default' % fty, (lambda ty_: (lambda it, st, fr, t, args, ga: I.Num(ZERO, ty_)))(fty))
+    R.setdefault('<bool as core::default::Default>::default', lambda it, st, fr, t, args, ga: I.BoolV(FALSE))
     return R
